@@ -48,10 +48,40 @@ class Effects:
                 out.add(d)
         return out
 
+    MANAGERS = ("tables", "modify", "flush", "snapshot", "snapshot_owned")
+
+    def manager_may_commit(self, fn):
+        """whether a transaction-manager entry point can commit, decided by evaluating it on every state of the shared
+        transaction (the R4 cells) instead of by reachability: a helper shared by tables() and modify() that commits only on
+        tables()'s behalf does not make modify() a commit point. Not evaluable => assume it may."""
+        key = ("mgr", fn)
+        if key not in self.memo:
+            may = False
+            for state in ("None", "Read", "Write"):
+                for old in (False, True):
+                    try:
+                        got, fin, log = eval_txmgr(self.f, fn, state, old, True)
+                    except Exception:
+                        got, log = "UNSUPPORTED", []
+                    if str(got).startswith("UNSUPPORTED") or any(str(e).startswith("commit") for e in log):
+                        may = True
+            self.memo[key] = may
+        return self.memo[key]
+
     def summary(self, path, depth=0):
         if path in self.memo:
             return self.memo[path]
         self.memo[path] = (False, False)
+        if path.startswith("store::fs::Store::") and path[len("store::fs::Store::"):] in self.MANAGERS:
+            mut = False
+            for b in self.f.family(path):
+                for bi, t in b.calls():
+                    if depth < 8:
+                        for q in self.bind(t):
+                            if q != path:
+                                mut = mut or self.summary(q, depth + 1)[0]
+            self.memo[path] = (mut, self.manager_may_commit(path.split("::")[-1]))
+            return self.memo[path]
         mut = False
         com = path in COMMITTERS
         for b in self.f.family(path) if path in self.f.bodies else []:
@@ -141,7 +171,8 @@ def r2(ctx):
         ctx.check(ok, "C06.R2", b.path, "write-inside-modify.%s.%s" % (name, op), "table write happens only inside the closure passed to Store::modify (the shared write transaction), directly or in a helper called only from there", t["sp"])
     if n < 15:
         raise mir.AnchorMissing("expected >=15 table write sites, found %d" % n)
-    allowed = {"store::fs::Store::flush", "store::fs::Store::snapshot", "store::fs::Store::tables",
+    # who may call commit at all; whether modify() - a step of an operation - actually does is R1's question (evaluated)
+    allowed = {"store::fs::Store::flush", "store::fs::Store::snapshot", "store::fs::Store::tables", "store::fs::Store::modify", "store::fs::Store::snapshot_owned",
                "store::fs::Store::new_impl", "store::fs::migrations::run_migration", "store::fs::tables::TransactionAndTables::commit",
                "store::fs::migrate_redb_v2_tuples::run"}
     def only_from(path, depth=3):
